@@ -63,14 +63,22 @@ func c14B1t6(c *Ctx) {
 		loopOut := plainEdges(edgesMatching(b, "bin<>=>(bin<->(ind<+"+g+">(0), "+v.lenTerm+"), -"+itoa(v.g-1)+")"))
 		r.Check(len(loopIn) == 1 && len(loopOut) == 1, key+".loop-bound", c.P.Pos(fn.Pos()), "group loop runs for j = 0, %s, … while j <= len-%s (every whole group, nothing beyond)", g, g)
 		grp := "call<*>(" + v.readPat[0] + ", " + v.readPat[1] + ")"
-		okE := plainEdges(edgesMatching(b, "ext#1("+grp+")"))
-		badE := plainEdges(edgesMatching(b, "un<!>(ext#1("+grp+"))"))
-		for _, ce := range edgesMatching(b, "ext#1("+grp+")") {
-			lit := expandAll(c, ce.Lit) // look through a per-variant wrapper to the shared group routine
-			for lit.Op == "un" {
-				lit = lit.Arg(0)
+		// the group routine reports acceptance as (byte, ok) or as (byte, error)
+		okE := plainEdges(edgesMatching(b, "ext#1("+grp+")", "bin<==>(ext#1("+grp+"), nil)"))
+		badE := plainEdges(edgesMatching(b, "un<!>(ext#1("+grp+"))", "bin<!=>(ext#1("+grp+"), nil)"))
+		for _, ce := range edgesMatching(b, "ext#1("+grp+")", "bin<==>(ext#1("+grp+"), nil)") {
+			strip := func(lit *ana.Term) *ana.Term {
+				for lit.Op == "un" || lit.Op == "bin" {
+					lit = lit.Arg(0)
+				}
+				return lit
 			}
-			groupFns = append(groupFns, calleeOf(lit.Arg(0)))
+			gf := calleeOf(strip(ce.Lit).Arg(0))
+			// look through a per-variant wrapper to the shared group routine
+			if x := strip(expandAll(c, ce.Lit)); x.Op == "ext" && calleeOf(x.Arg(0)) != nil {
+				gf = calleeOf(x.Arg(0))
+			}
+			groupFns = append(groupFns, gf)
 		}
 		r.Check(len(okE) == 1 && len(badE) == 1, key+".group-read", c.P.Pos(fn.Pos()), "each iteration decodes the two tryte values at j and j+%d through the shared group routine", v.g/2)
 		// value-set analysis over the length for the final exits
@@ -225,8 +233,24 @@ func c14Groups(c *Ctx) {
 				r.Undec("C14.group-tables.decode", c.P.Pos(dec.Pos()), "decodeGroup(%d,%d) not foldable: %v", t1, t2, err)
 				return
 			}
-			okv, _ := ex.Results[1].(*bitdom.BV).Const()
-			bv, _ := ex.Results[0].(*bitdom.BV).Const()
+			// accepted: ok == true, or a nil error
+			var okv uint64
+			if flag, isBV := ex.Results[1].(*bitdom.BV); isBV {
+				okv, _ = flag.Const()
+			} else if isNil, known := nilnessOf(ex.Results[1]); known {
+				if isNil {
+					okv = 1
+				}
+			} else {
+				r.Undec("C14.group-tables.decode", c.P.Pos(dec.Pos()), "decodeGroup(%d,%d): acceptance result not foldable", t1, t2)
+				return
+			}
+			rb, isBV := ex.Results[0].(*bitdom.BV)
+			if !isBV {
+				r.Undec("C14.group-tables.decode", c.P.Pos(dec.Pos()), "decodeGroup(%d,%d): value not foldable", t1, t2)
+				return
+			}
+			bv, _ := rb.Const()
 			v := t1 + 27*t2
 			want := v >= -128 && v <= 127
 			if (okv == 1) != want {
